@@ -76,7 +76,7 @@ func (a *Assembler) Run(ctx context.Context, targetFs fs.FS, parts []UnpackSpec,
 	mounts := map[fs.AbsolutePath]struct{}{}
 	for _, part := range parts {
 		for mount := range mounts {
-			if strings.HasPrefix(part.Path.String(), mount.String()) {
+			if isUnderPath(part.Path, mount) {
 				return nil, Errorf(rio.ErrAssemblyInvalid, "invalid inputs config: "+
 					"cannot stitch additional inputs under a mount (%q is under mount at %q)",
 					part.Path, mount)
@@ -210,6 +210,16 @@ func (a *Assembler) Run(ctx context.Context, targetFs fs.FS, parts []UnpackSpec,
 		hk.append(janitor)
 	}
 	return hk.Teardown, nil
+}
+
+// isUnderPath reports whether p is the path `base` or lies below it, comparing whole
+// path segments ("/ab" is not under "/a").
+func isUnderPath(p, base fs.AbsolutePath) bool {
+	ps, bs := p.String(), base.String()
+	if bs == "/" || ps == bs {
+		return true
+	}
+	return strings.HasPrefix(ps, bs+"/")
 }
 
 type housekeeping struct {
